@@ -256,10 +256,13 @@ func (fs *FileSink) rotate() error {
 
 		// Clean up the existing file
 		err := fs.f.Close()
+		// Set to nil here so that even if we error out, on the next access open()
+		// will be tried (as in reopen): a handle whose Close failed is closed
+		// all the same, and keeping it would fail every later write.
+		fs.f = nil
 		if err != nil {
 			return err
 		}
-		fs.f = nil
 
 		// Move current log file to a timestamped file.
 		if fs.TimestampOnlyOnRotate {
